@@ -298,41 +298,7 @@ func runC11(c *Ctx) {
 	if !c.need(f != nil, "sources/env.Source.Value") {
 		return
 	}
-	c.analysed(relName(f))
-	calls, chains := transformerChains(f)
-	if len(calls) != 1 || chains[0] == nil {
-		c.bad("chain", "env", f.Pos(), "cannot resolve the env mangler chain")
-		return
-	}
-	ch := chains[0]
-	type wantE struct {
-		typ    string
-		strs   []string
-		fields map[string]string
-		fns    []string
-	}
-	want := []wantE{
-		{"transform.AliasMangler", []string{"dials", "dialsenv"}, nil, nil},
-		{"transform.FlattenMangler", []string{"dials"}, nil, []string{"EncodeUpperCamelCase", "EncodeUpperCamelCase"}},
-		{"tagformat.TagReformattingMangler", []string{"dials"}, nil, []string{"DecodeGoTags", "EncodeUpperSnakeCase"}},
-		{"tagformat.TagCopyingMangler", nil, map[string]string{"SrcTag": "dials", "NewTag": "dialsenv"}, nil},
-		{"transform.StringCastingMangler", nil, nil, nil},
-	}
-	if len(ch) != len(want) {
-		c.bad("chain", "env#length", calls[0].Pos(), "env chain is %s, want 5 manglers", chainString(ch))
-	} else {
-		for i, we := range want {
-			e := ch[i]
-			okE := e.Type == we.typ && !e.Conditional && strsEqual(e.Strs, we.strs) && strsEqual(e.Fns, we.fns)
-			for k, v := range we.fields {
-				if e.Fields[k] != v {
-					okE = false
-				}
-			}
-			c.check(okE, "chain", "env#"+string(rune('1'+i)), calls[0].Pos(), "position "+string(rune('1'+i))+": "+chainString([]chainElem{e}), "position "+string(rune('1'+i))+" is "+chainString([]chainElem{e})+", want "+we.typ)
-		}
-	}
-
+	c11EnvChain(c)
 	// ---- only-present ----------------------------------------------------------------
 	var lookup *ssa.Call
 	for _, g := range w.funcsIn("sources/env") {
@@ -852,4 +818,49 @@ func c14EzWrapAlways(c *Ctx, rule string) {
 	if n == 0 {
 		c.bad(rule, relName(ez), ez.Pos(), "no fileSource call found in the ez entry point")
 	}
+}
+
+// c11EnvChain: the environment source's mangler chain by resolved type and constructor constants (shared with C19:
+// the words of a derived variable name are only the identifier's words if the chain decodes and encodes with the documented casings).
+func c11EnvChain(c *Ctx) {
+	w := c.W
+	f := w.fn("sources/env", "Source.Value")
+	if !c.need(f != nil, "sources/env.Source.Value") {
+		return
+	}
+	c.analysed(relName(f))
+	calls, chains := transformerChains(f)
+	if len(calls) != 1 || chains[0] == nil {
+		c.bad("chain", "env", f.Pos(), "cannot resolve the env mangler chain")
+		return
+	}
+	ch := chains[0]
+	type wantE struct {
+		typ    string
+		strs   []string
+		fields map[string]string
+		fns    []string
+	}
+	want := []wantE{
+		{"transform.AliasMangler", []string{"dials", "dialsenv"}, nil, nil},
+		{"transform.FlattenMangler", []string{"dials"}, nil, []string{"EncodeUpperCamelCase", "EncodeUpperCamelCase"}},
+		{"tagformat.TagReformattingMangler", []string{"dials"}, nil, []string{"DecodeGoTags", "EncodeUpperSnakeCase"}},
+		{"tagformat.TagCopyingMangler", nil, map[string]string{"SrcTag": "dials", "NewTag": "dialsenv"}, nil},
+		{"transform.StringCastingMangler", nil, nil, nil},
+	}
+	if len(ch) != len(want) {
+		c.bad("chain", "env#length", calls[0].Pos(), "env chain is %s, want 5 manglers", chainString(ch))
+	} else {
+		for i, we := range want {
+			e := ch[i]
+			okE := e.Type == we.typ && !e.Conditional && strsEqual(e.Strs, we.strs) && strsEqual(e.Fns, we.fns)
+			for k, v := range we.fields {
+				if e.Fields[k] != v {
+					okE = false
+				}
+			}
+			c.check(okE, "chain", "env#"+string(rune('1'+i)), calls[0].Pos(), "position "+string(rune('1'+i))+": "+chainString([]chainElem{e}), "position "+string(rune('1'+i))+" is "+chainString([]chainElem{e})+", want "+we.typ)
+		}
+	}
+
 }
